@@ -107,7 +107,7 @@ fn gen_fragment(rng: &mut Rng) -> String {
         }
         NUMBERS[rng.usize_below(NUMBERS.len())].to_string()
     };
-    match rng.below(100) {
+    match rng.below(101) {
         0..=24 => format!("\\{} ", voc[rng.usize_below(voc.len())]),
         25..=34 => num(rng),
         35..=39 => UNITS[rng.usize_below(UNITS.len())].to_string(),
@@ -197,7 +197,36 @@ fn gen_fragment(rng: &mut Rng) -> String {
             // allocated variables used directly and through aliases
             rng.pick(&["", "\\a 1=5 ", "\\let\\b=\\a \\b 1=5 ", "\\let\\b=\\a \\the\\b ", "{\\a=3 }\\the\\a "])
         ),
-        95 => format!("\\tracingmacros={} ", num(rng)),
+        95 => {
+            // registers driven to the extreme values that no constant can express (reached by
+            // \advance wrap-around), then used: every arithmetic path sees -2^31 and +-(2^31-1)
+            let r = rng.below(3);
+            let setup = match rng.below(5) {
+                0 => format!("\\dimen{r}=-16383.99998pt \\advance\\dimen{r} by \\dimen{r} \\advance\\dimen{r} by -2sp "),
+                1 => format!("\\dimen{r}=16383.99998pt \\advance\\dimen{r} by \\dimen{r} \\advance\\dimen{r} by 1sp "),
+                2 => format!("\\count{r}=-2147483647 \\advance\\count{r} by -1 "),
+                3 => format!("\\skip{r}=-16383.99998pt plus -16383.99998fil minus 16383.99998pt \\advance\\skip{r} by \\skip{r} \\advance\\skip{r} by -2sp plus -2sp minus 1sp "),
+                _ => format!("\\count{r}=2147483647 "),
+            };
+            let kind = *rng.pick(&["count", "dimen", "skip"]);
+            let operand = match rng.below(4) {
+                0 => "-1".to_string(),
+                1 => num(rng),
+                2 => format!("\\count{r}"),
+                _ => format!("-\\{kind}{r}"),
+            };
+            let use_it = match rng.below(7) {
+                0 => format!("\\divide\\{kind}{r} by {operand} "),
+                1 => format!("\\multiply\\{kind}{r} by {operand} "),
+                2 => format!("\\advance\\{kind}{r} by {operand} "),
+                3 => format!("\\{kind}5=-\\{kind}{r} \\the\\{kind}5 "),
+                4 => format!("\\dimen5={operand}\\{kind}{r} "),
+                5 => format!("\\the\\{kind}{r} \\count5=\\{kind}{r} \\ifnum\\{kind}{r}<{operand} \\fi "),
+                _ => format!("\\skip5=\\{kind}{r} plus \\{kind}{r} minus 1.5\\{kind}{r} "),
+            };
+            format!("{setup}{use_it}")
+        }
+        100 => format!("\\tracingmacros={} ", num(rng)),
         96 => format!("\\dumpFormat={} \\dumpValidate={} ", num(rng), num(rng)),
         97 => format!("\\globaldefs={} ", num(rng)),
         98 => format!("\\endlinechar={} ", num(rng)),
